@@ -341,14 +341,18 @@ def stage_lr(work, tier, seed):
                                               trail=seps[1])
                 twin = iid % 3 == 0
                 if twin:
-                    # the plain rendering first: the next record is its layout twin
-                    t0, lex0 = G.render_input(g, toks, rng, seps=[" "], lead="", trail="")
-                    ins.append({"iid": iid, "text": t0, "lex": lex0, "partial": False,
-                                "meta": {"kind": kind, "anylex": False}})
+                    # the plain rendering first: the next record is its layout twin.  Plain means
+                    # NO layout at all between the tokens every other time (a single blank
+                    # otherwise): a parser that stops at the first layout must not look the same
+                    # on both sides.  Full and partial parse each have their own pair.
+                    t0, lex0 = G.render_input(g, toks, rng, seps=[""] if iid % 2 == 0 else [" "], lead="", trail="")
+                    for partial in (False, True):
+                        ins.append({"iid": iid, "text": t0, "lex": lex0, "partial": partial,
+                                    "meta": {"kind": kind, "anylex": False}})
                 for partial in (False, True):
                     ins.append({"iid": iid, "text": text_in, "lex": lex, "partial": partial,
                                 "meta": dict({"kind": kind, "anylex": False},
-                                             **({"twin": "layout"} if twin and not partial else {}))})
+                                             **({"twin": "layout"} if twin else {}))})
                 # the same input through a user-style lexer that ignores the expected tokens
                 if not g.get("layout") and iid % 2 == 0:
                     ins.append({"iid": iid, "text": text_in, "lex": lex, "partial": False, "lexer": "any",
@@ -2085,6 +2089,27 @@ _cd("clash_star_after", [dict(name="S", meta=NOMETA, alts=[dict(syms=[_s("R1", "
 _cd("clash_star_one_after", [dict(name="S", meta=NOMETA, alts=[dict(syms=[_s("R1", "*"), _s("Tc")], meta=NOMETA)]),
                              dict(name="R1", meta=NOMETA, alts=[dict(syms=[_s("Ta")], meta=NOMETA)]),
                              dict(name="R11", meta=NOMETA, alts=[dict(syms=[_s("Tb")], meta=NOMETA)])])
+# ... and systematically: every operator x every helper name it creates x where the clashing
+# user rule stands: defined AFTER the rule that uses the operator, defined BEFORE it (the using
+# rule is not the first rule then), or being itself the rule whose first / second production
+# uses the operator.  Each of them has to be rejected with a diagnostic.
+for _op, _sufs in (("+", ["1"]), ("*", ["0", "1"]), ("?", ["Opt"])):
+    for _suf in _sufs:
+        _tag = {"+": "plus", "*": "star", "?": "opt"}[_op] + _suf
+        _cl = "R1" + _suf
+        _r1 = dict(name="R1", meta=NOMETA, alts=[dict(syms=[_s("Ta")], meta=NOMETA)])
+        _clash = dict(name=_cl, meta=NOMETA, alts=[dict(syms=[_s("Tb")], meta=NOMETA)])
+        _user = dict(name="U", meta=NOMETA, alts=[dict(syms=[_s("R1", _op), _s("Tc")], meta=NOMETA)])
+        _cd("gclash_%s_def_after" % _tag, [dict(name="S", meta=NOMETA, alts=[dict(syms=[_s("U"), _s(_cl)], meta=NOMETA)]),
+                                           _user, _r1, _clash])
+        _cd("gclash_%s_def_before" % _tag, [dict(name="S", meta=NOMETA, alts=[dict(syms=[_s(_cl), _s("U")], meta=NOMETA)]),
+                                            _clash, _user, _r1])
+        _cd("gclash_%s_self_first" % _tag, [dict(name="S", meta=NOMETA, alts=[dict(syms=[_s(_cl), _s("Tc")], meta=NOMETA)]),
+                                            dict(name=_cl, meta=NOMETA, alts=[dict(syms=[_s("R1", _op), _s("Tb")], meta=NOMETA)]), _r1])
+        _cd("gclash_%s_self_second" % _tag, [dict(name="S", meta=NOMETA, alts=[dict(syms=[_s(_cl), _s("Tc")], meta=NOMETA)]),
+                                             dict(name=_cl, meta=NOMETA, alts=[dict(syms=[_s("Tb")], meta=NOMETA),
+                                                                               dict(syms=[_s("R1", _op), _s("Tb")], meta=NOMETA)]), _r1])
+        REJECT_DOCS |= {"gclash_%s_%s" % (_tag, w) for w in ("def_after", "def_before", "self_first", "self_second")}
 _cd("empty_mid", [dict(name="S", meta=NOMETA, alts=[dict(syms=[_s("Ta"), _s("EMPTY"), _s("Tb")], meta=NOMETA),
                                                     dict(syms=[_s("EMPTY")], meta=NOMETA)])])
 
